@@ -30,3 +30,33 @@ Proof. exact clone_error_not_served. Qed.
 Print Assumptions C19_start_tail_is_the_code_path.
 Print Assumptions C19_promoted_only_when_done.
 Print Assumptions C19_failed_clone_not_served.
+
+(** * data half (model: Block.Rebuild; proofs: Block.RebuildLemmas, Block.RebuildProofs) *)
+From Jiva Require Import Block.Model Block.Lemmas Block.ProofsWrite Block.ProofsOps Block.Corr
+     Block.Rebuild Block.RebuildLemmas Block.RebuildCorr Block.RebuildProofs.
+
+(** CloneReplica of S = member [sx] of the source, a retained user-created snapshot ([clone_start_ok]), onto a
+    fresh replica.  For every schedule
+      (SrcWrite | SrcHole | Copy)*  CloneInfo rev  (SrcWrite | SrcHole | Copy)*
+      with every block of members 1 .. sx copied at least once;
+      DstReload;
+      (SrcWrite | SrcHole | DstHole | UlmBegin | UlmPre | UlmMerge)*
+    -- the source volume stays in service (writes of any alignment, asynchronous reclamation) --
+      the clone's live image is the image of S (as the source held it at the start, and still holds it),
+      its block map is well-formed and a full read through it returns that image,
+      and its revision counter is the one handed to UpdateCloneInfo (sync.CloneReplica passes the counter
+      recorded for S). *)
+Theorem C19_clone_image : forall K sx s0 es1 es1' es2 rev, (0 < K)%nat ->
+  clone_start_ok K sx s0 ->
+  Forall clone_pre_ev es1 -> Forall clone_pre_ev es1' ->
+  (forall i b, (1 <= i <= sx)%nat -> (b < nblk (src s0))%nat -> copied_in (es1 ++ es1') i b) ->
+  Forall clone_post_ev es2 ->
+  let s := run true K s0 (es1 ++ CloneInfo rev :: es1' ++ DstReload :: es2) in
+  nf (dst s) = S sx /\
+  image K (dst s) (S sx) = image K (src s0) sx /\
+  image K (src s) sx = image K (src s0) sx /\
+  wf K (dst s) /\ fst (read_all K (dst s)) = image K (src s0) sx /\
+  drev s = rev.
+Proof. exact clone_image. Qed.
+
+Print Assumptions C19_clone_image.
